@@ -15,7 +15,7 @@
 From Coq Require Import List String Bool Arith ZArith.
 From NG Require Import Pipe.Rails Pipe.Rails_proofs Pipe.TurnV1 Pipe.TurnV1_proofs Pipe.TurnV2 Pipe.TurnV2_proofs
                        Pipe.Gates_proofs Pipe.FlowCheck Pipe.FlowCheck_proofs Gen.C01Flows Pipe.Flows_proofs
-                       Pipe.FlowsV2fix_proofs Pipe.Gates_examples.
+                       Pipe.FlowsV2fix_proofs Pipe.FlowsOut_proofs Pipe.Gates_examples.
 Import ListNotations.
 Open Scope string_scope.
 Open Scope list_scope.
@@ -169,11 +169,16 @@ Theorem C02_T_output_loop :
 Proof. exact out_loop_visits. Qed.
 Print Assumptions C02_T_output_loop.
 
-(* library rail `self check output`: after the refusal it stops (with rail exceptions enabled it
-   creates the exception event and does not stop - an observation recorded in the evidence) *)
+(* library rail `self check output` (flows.v1.co and flows.co, as translated from the current
+   source): a rejection reaches `stop` / `abort` on EVERY path, with and without
+   enable_rails_exceptions - so that the rails loop does not run on to StartUtteranceBotAction
+   (1.0) and `_bot_say` does not go on to UtteranceBotAction (2.x) with the rejected text.
+   False for the shipped flows (stop/abort only under the `else`); true with
+   fixes/C02-selfcheck-output-stop.patch *)
 Theorem C02_T_self_check_output_stops :
-  reject_stops_ok v1_self_check_output ["$config.enable_rails_exceptions"] = true.
-Proof. exact self_check_output_stops. Qed.
+  reject_stops_ok v1_self_check_output [] = true /\
+  v2_reject_aborts v2lib_self_check_output "not $allowed" = true.
+Proof. exact (conj self_check_output_stops v2_self_check_output_aborts). Qed.
 Print Assumptions C02_T_self_check_output_stops.
 
 (* guardrails.co: `_bot_say` awaits `run output rails $text` before UtteranceBotAction(script=$text)
